@@ -238,7 +238,8 @@ class _DatagramClientSocketpoolSimple6:
                 ),
                 remote_addr=sockaddr,
             )
-        except socket.gaierror as e:
+        except (socket.gaierror, UnicodeError) as e:
+            # (UnicodeError: a name the IDNA step of name resolution refuses)
             raise error.ResolutionError(
                 "No address information found for requests to %r" % (sockaddr,)
             ) from e
